@@ -25,7 +25,7 @@ ASSUMPTIONS = [
 ]
 DECIDING = ['bp.agent:Agent._do_fwd', 'bp.agent:Agent.send_bundle', 'bp.util:BundleContainer.fix_block_num',
             'bp.util:BundleContainer.add_block', 'bp.encoding.blocks:CanonicalBlock.ensure_block_type_specific_data']
-REQUIRED_OBS = ['forwards_checked', 'hop_count_blocks_checked', 'age_blocks_checked', 'prev_node_replaced', 'fragmented_forwards_checked']
+REQUIRED_OBS = ['stack_forwards_checked', 'forwards_checked', 'hop_count_blocks_checked', 'age_blocks_checked', 'prev_node_replaced', 'fragmented_forwards_checked']
 
 NODE = 'dtn://me/'
 NOW_DTN_MS = (1767225600 - 946684800) * 1000
@@ -58,6 +58,8 @@ def cases(tier, seed):
             out.append(dict(id='combo-%d' % idx, kind='combo-list', picks=picks[idx:idx + 30], seed=seed))
         for idx in range(16):
             out.append(dict(id='rand-%d' % idx, kind='rand', seed=seed * 65537 + idx, count=30))
+    from vf import stackcases  # pylint: disable=import-outside-toplevel
+    stackcases.add_cases(out, tier, seed)
     return out
 
 
@@ -287,6 +289,9 @@ def classify(problems, detail, bundle):
 
 
 def run_case(case):
+    if case.get('kind') == 'stack':
+        from vf import stackcases  # pylint: disable=import-outside-toplevel
+        return stackcases.run_block(PROPERTY_ID, case)
     obs = dict(forwards_checked=0, hop_count_blocks_checked=0, age_blocks_checked=0, prev_node_replaced=0,
                unknown_blocks_preserved=0, unknown_blocks_changed=0)
     combos = _combo_cases()
